@@ -75,6 +75,13 @@ struct Alt {
 		}
 		tl_rng = old; vt[kind] = v; std::stringstream g; if (v) v->PublishGroup(g); gtext = g.str(); return v;
 	}
+	TMCG_PublicKeyRing *ring2 = nullptr;
+	// QR encoding: the ring the verifier holds when the prover's Rabin key was replaced by another generated key
+	TMCG_PublicKeyRing *alt_ring() {
+		if (ring2) return ring2;
+		Rng *old = tl_rng; tl_rng = &rng; TMCG_SecretKey other("Mallory", "m@x", W.rabin_bits, false); tl_rng = old;
+		ring2 = new TMCG_PublicKeyRing(2); ring2->keys[0] = TMCG_PublicKey(other); ring2->keys[1] = W.ring->keys[1]; return ring2;
+	}
 	pr::World *view(const std::string &kind, size_t n) {
 		std::string key = kind + "/" + std::to_string(n); auto it = views.find(key); if (it != views.end()) return it->second;
 		pr::World *V = new pr::World(W, pr::World::ViewTag()); Rng *old = tl_rng; tl_rng = &rng;
@@ -109,10 +116,6 @@ struct Alt {
 				std::stringstream in(text); std::vector<std::string> L; std::string l; while (std::getline(in, l)) L.push_back(l);     // p q k g h
 				mpz_t p, h; mpz_init(p); mpz_init(h); mpz_set_str(p, L[0].c_str(), 62); mpz_set_str(h, L[4].c_str(), 62); mpz_mul(h, h, h); mpz_mod(h, h, p); L[4] = mpz_b62(h); mpz_clear(p); mpz_clear(h);
 				std::string o; for (auto &x : L) o += x + "\n"; return o; };
-		} else if (kind == "key:other-rabin") {
-			if (!W.skA) { tl_rng = old; delete V; views[key] = nullptr; return nullptr; }
-			TMCG_SecretKey other("Mallory", "m@x", W.rabin_bits, false);
-			V->ring = new TMCG_PublicKeyRing(2); V->ring->keys[0] = TMCG_PublicKey(other); V->ring->keys[1] = W.ring->keys[1];
 		}
 		tl_rng = old; views[key] = V; return V;
 	}
